@@ -108,8 +108,30 @@ def check(rep: Report, ctx: Ctx) -> None:
                        fi=x.func, node=x.node,
                        detail=f"cleaning runs '{x.stmt.nf()[:120]}'")
 
+    # every cleaning step does its work on every path: the store may hold
+    # traces of earlier runs, so "nothing to do" cannot be inferred from this
+    # run's options (e.g. a zero buffer) or from this run's ingestion
+    from ..cfg import ENTRY as _ENTRY, EXIT as _EXIT
+    for cname, it in interps.items():
+        fi = cleaners[cname]
+        ccfg = ctx.cfg(fi)
+        work = [x for x in it.execs if x.func is fi and x.kind == "execute"
+                and isinstance(x.stmt, (S.Delete, S.Update))
+                and table_of(x.stmt) == "nodes"]
+        nodes_ = [ccfg.container(x.node) for x in work]
+        nodes_ = [n for n in nodes_ if n is not None]
+        ok = bool(nodes_) and ccfg.every_path_passes(_ENTRY, _EXIT, nodes_)
+        rets = [r for r in ast.walk(fi.node) if isinstance(r, ast.Return)]
+        rep.ob("R11.2", f"{cname}: the statement runs on every path", ok,
+               fi=fi, node=rets[0] if rets and not ok else fi.node,
+               detail=("unconditional" if ok else
+                       "some path returns without executing the "
+                       "DELETE/UPDATE on nodes: traces that should be "
+                       "removed (or renamed) stay in the store and are "
+                       "streamed"))
     frame_broken = {o.instance.split(":")[0] for o in rep.obligations
-                    if o.rule == "R11.2" and not o.ok}
+                    if o.rule == "R11.2" and not o.ok
+                    and "DELETE selects" in o.instance}
     # ---- R11.3 ---------------------------------------------------------------
     rep.rule("R11.3", "dangling-parent selection", 3)
     if "remove_inconsistent_jobs" not in frame_broken:
